@@ -21,6 +21,7 @@ pub fn thread_cpu_ns() -> u64 {
 
 /// Silence the default panic message for panics the workloads raise on purpose.
 pub fn quiet_panics() {
+    start_load_monitor();
     let verbose = std::env::var("VERBOSE_PANICS").is_ok();
     std::panic::set_hook(Box::new(move |info| {
         if verbose {
@@ -60,5 +61,53 @@ pub fn starvation() -> f64 {
 }
 
 pub fn overloaded() -> bool {
-    starvation() > 2.5 || starvation() > 2.5
+    starvation() > 2.5 || starvation() > 2.5 || load_window(6_000_000_000).2 >= 3
+}
+
+static LOAD: std::sync::Mutex<std::collections::VecDeque<(u64, u64, f64)>> = std::sync::Mutex::new(std::collections::VecDeque::new());
+
+/// Background probe of what the machine does to this process *while* a case runs (the point probes above only see the
+/// moment after it): every 20 ms one sample of (a) by how much a 20 ms sleep overshoots and (b) wall/CPU time of a 1 ms spin.
+/// Started once per workload process; costs about 5 % of one core.
+pub fn start_load_monitor() {
+    static ONCE: std::sync::Once = std::sync::Once::new();
+    ONCE.call_once(|| {
+        let _ = std::thread::Builder::new().name("verif-load-monitor".into()).spawn(|| loop {
+            let rq = libc::timespec { tv_sec: 0, tv_nsec: 20_000_000 };
+            let t0 = mono_ns();
+            unsafe { libc::nanosleep(&rq, std::ptr::null_mut()) };
+            let overshoot = (mono_ns() - t0).saturating_sub(20_000_000);
+            let (c0, w0) = (thread_cpu_ns(), mono_ns());
+            let mut x = 0u64;
+            while thread_cpu_ns() - c0 < 1_000_000 {
+                for _ in 0..500 {
+                    x = x.wrapping_mul(6_364_136_223_846_793_005).wrapping_add(1);
+                }
+                std::hint::black_box(x);
+            }
+            let ratio = (mono_ns() - w0) as f64 / (thread_cpu_ns() - c0).max(1) as f64;
+            let mut l = LOAD.lock().unwrap_or_else(std::sync::PoisonError::into_inner);
+            let now = mono_ns();
+            l.push_back((now, overshoot, ratio));
+            while l.front().is_some_and(|f| now - f.0 > 60_000_000_000) {
+                l.pop_front();
+            }
+        });
+    });
+}
+
+/// (worst sleep overshoot in ns, worst spin wall/CPU ratio, number of bad samples) over the last `window_ns`;
+/// a sample is bad when the sleep overshot by more than 10 ms or the spin got less than a third of a core.
+pub fn load_window(window_ns: u64) -> (u64, f64, usize) {
+    let l = LOAD.lock().unwrap_or_else(std::sync::PoisonError::into_inner);
+    let now = mono_ns();
+    let (mut o, mut r, mut bad) = (0u64, 0f64, 0usize);
+    for s in l.iter().filter(|s| now - s.0 <= window_ns) {
+        o = o.max(s.1);
+        r = r.max(s.2);
+        if s.1 > 10_000_000 || s.2 > 3.0 {
+            bad += 1;
+        }
+    }
+    (o, r, bad)
 }
